@@ -45,6 +45,15 @@ def specs(tier):
         for cls, par in (("PlanarBond", 0), ("AtropBond", 1), ("AtropBond", -1)):
             S.append(U.mk(SCRG, at, bd, bstereo=[(cls, (42, 43, 40, 41, 44, 45), par)],
                           bchg={(46, 47): {"BROKEN": ("PlanarBond", (48, 49, 46, 47, 50, 51), 0), "FORMED": ("PlanarBond", (48, 49, 46, 47, 51, 50), 0)}}))
+    # one centre that carries BOTH a static descriptor and stereo changes (what reactant() / product() / the transition state
+    # overlay): an atom (P: static tetrahedral + fleeting trigonal bipyramid) and a bond (static planar + fleeting axis)
+    at2 = [(60, "P"), (61, "F"), (62, "Cl"), (63, "Br"), (64, "H"), (65, "O"), (66, "C"), (67, "C"), (68, "F"), (69, "H"), (70, "Cl"), (71, "H")]
+    bd2 = [(60, 61), (60, 62), (60, 63), (60, 64), (60, 65, "FLEETING"), (66, 67), (66, 68), (66, 69), (67, 70), (67, 71)]
+    S.append(U.mk(SCRG, at2, bd2, astereo=[("Tetrahedral", (60, 61, 62, 63, 64), 1)], bstereo=[("PlanarBond", (68, 69, 66, 67, 70, 71), 0)],
+                  achg={60: {"FLEETING": ("TrigonalBipyramidal", (60, 61, 65, 62, 63, 64), 1)}},
+                  bchg={(66, 67): {"FLEETING": ("AtropBond", (68, 69, 66, 67, 70, 71), 1)}}))
+    S.append(U.mk(SCRG, at2, bd2, astereo=[("Tetrahedral", (60, 61, 62, 63, 64), -1)],
+                  achg={60: {"BROKEN": ("Tetrahedral", (60, 61, 62, 63, 64), -1), "FORMED": ("SquarePlanar", (60, 61, 62, 63, 64), 0)}}))
     return S
 
 
